@@ -26,7 +26,7 @@ NSOf(p) == [h |-> p.h, view |-> p.view, prepared |-> p.prepared, committed |-> p
             member |-> p.member, pp |-> ToSet(p.pp), ps |-> ToSet(p.ps), cs |-> ToSet(p.cs), vs |-> ToSet(p.vs)]
 DigestOf(s) ==
   LET m == s.msg IN
-  [k |-> m.k, to |-> ToSet(s.to), v |-> IF m.k = "BAD" THEN 0 ELSE m.v,
+  [k |-> m.k, h |-> IF m.k = "BAD" THEN 0 ELSE m.h, to |-> ToSet(s.to), v |-> IF m.k = "BAD" THEN 0 ELSE m.v,
    x |-> IF m.k \in {"PP", "P", "C"} THEN m.x ELSE IF m.k = "NV" THEN m.pp.x ELSE "-",
    blk |-> IF m.k \in {"PP", "VC", "NV"} THEN m.blk ELSE "-",
    pv |-> IF m.k = "VC" /\ m.proof.has THEN m.proof.ppv ELSE -1,
@@ -111,6 +111,14 @@ Judge(e, n, pre, post) ==
                              /\ HasPP(pre, pre.prepared) /\ q.proof.ppx = ThePP(pre, pre.prepared).x
                              /\ q.blk = ThePP(pre, pre.prepared).blk /\ q.bok,
          "c09_vote_without_lock")
+  \* the same, with "holding a prepared certificate" read off the node's message log instead of its own flag: a stored proposal
+  \* with its block and PREPAREs of quorum weight (with the proposer) for exactly its hash
+  /\ Chk((e.ev = "timeout" /\ same) =>
+           LET certs == {p.v : p \in {q \in pre.pp : q.blk # "-" /\ IsQuorum(pre.h, PrepSenders(pre, q.v, q.x) \cup {q.s})}} IN
+           certs # {} => LET top == CHOOSE v \in certs : \A u \in certs : u <= v IN
+                         /\ \A q \in sentVC : q.proof.has /\ q.proof.ppv = top /\ q.blk = ThePP(pre, top).blk
+                         /\ (sentVC = {} => \E t \in VotesAt(post, post.view) : t.s = n /\ t.pv = top),
+         "c09_vote_does_not_carry_the_certificate_in_the_log")
   /\ Chk((e.ev = "timeout" /\ same /\ pre.prepared >= 0 /\ sentVC = {}) =>
            \E t \in VotesAt(post, post.view) : t.s = n /\ t.pv = pre.prepared /\ t.blk # "-", "c09_own_vote_without_lock")
   \* C09: a NEW_VIEW embeds exactly the counted votes and re-proposes the block of the highest proof
@@ -122,6 +130,10 @@ Judge(e, n, pre, post) ==
            /\ IF withP = {} THEN Len(e.proposed) > 0
               ELSE \E t \in withP : (\A u \in withP : u.pv <= t.pv) /\ q.pp.x = t.px /\ q.blk = t.blk /\ q.bok,
          "c09_new_view_does_not_carry_lock")
+  \* C20: the votes a correct leader re-embeds in its NEW_VIEW were stored with valid signatures (C08); re-read from the bytes it
+  \* sends, every one of them still verifies under its sender's key
+  /\ Chk(\A q \in sentNV : \A i \in DOMAIN q.votes : q.votes[i].sig, "c20_reembedded_vote_signature_no_longer_verifies")
+  /\ Chk(\A q \in sentVC : q.proof.has => (q.proof.ppsig /\ \A i \in DOMAIN q.proof.ps : q.proof.ps[i].sig), "c20_reembedded_proof_signature_no_longer_verifies")
   \* C10: no equivocation, phase order
   /\ Chk(\A q \in sentP : /\ ~\E o \in H.p : o[1] = q.h /\ o[2] = q.v /\ o[3] # q.x
                           /\ q.s = n /\ n # LeaderM(q.h, q.vm)
@@ -142,6 +154,10 @@ Judge(e, n, pre, post) ==
                                 /\ \/ IsQuorum(pre.h, {t.s : t \in {u \in ps2 : u.v = q.v /\ u.x = q.x}} \cup {p.s})
                                    \/ IsQuorum(pre.h, {t.s : t \in {u \in cs2 : u.v = q.v /\ u.x = q.x}}),
          "c10_commit")
+  \* ... and within one step (a step may close a height and drain the future cache): one hash per (height, view) and kind
+  /\ Chk(\A q1, q2 \in sentP : (q1.h = q2.h /\ q1.v = q2.v) => q1.x = q2.x, "c10_prepare")
+  /\ Chk(\A q1, q2 \in sentC : (q1.h = q2.h /\ q1.v = q2.v) => q1.x = q2.x, "c10_commit")
+  /\ Chk(\A q1, q2 \in sentPP : (q1.h = q2.h /\ q1.v = q2.v) => q1.x = q2.x, "c10_two_proposals")
   /\ Chk(\A q \in sentPP : ~\E o \in H.pp : o[1] = q.h /\ o[2] = q.v /\ o[3] # q.x, "c10_two_proposals")
   /\ Chk(\A q \in sentNV : ~\E o \in H.pp : o[1] = q.h /\ o[2] = q.v /\ o[3] # q.pp.x, "c10_two_proposals")
   /\ Chk(same => \A q \in sentPP \cup sentNV : q.v >= pre.view, "c10_proposal_below_current_view")
@@ -156,6 +172,9 @@ Judge(e, n, pre, post) ==
   \* asks for the proposal's validation - is the member at position (view mod committee size), whatever view the node is in
   /\ Chk((e.ev = "deliver" /\ same /\ m.k \in {"PP", "NV"}) => \A i \in DOMAIN e.vals : e.vals[i].by = LeaderM(pre.h, m.vm),
          "c18_proposer_named_to_consumer_is_not_the_leader_of_the_view")
+  \* C18: the ordered committee a correct node's term computes leaders from is the committee of that height, in its order, for as
+  \* long as the term lives (every correct node must find the same member at position view mod size)
+  /\ Chk(e.tcom = <<>> \/ e.tcom = Com(post.h), "c18_term_committee_is_not_the_ordered_committee_of_the_height")
   \* C17 in situ: a message reaches the protocol logic of a term only if its height is that term's height
   /\ Chk(\A i \in DOMAIN e.stores : e.stores[i].h = e.stores[i].at, "c17_message_handled_by_term_of_other_height")
   \* C17: a node that is not in the committee of its height has no term logic for that height: a message delivered to it is
@@ -167,6 +186,7 @@ Judge(e, n, pre, post) ==
        LET c == e.commits[i] IN
        /\ Chk(c.h \notin DOMAIN chain \/ chain[c.h] = c.blk, "c01_fork")
        /\ Chk(c.strict /\ ValidBlockProofAbs(c.proof, c.blk, c.h), "c03_committed_pair_rejected")
+       /\ Chk(~c.proof.bad => c.proof.x = c.blk, "c04_committed_block_does_not_match_the_certified_hash")
        /\ Chk(<<c.h, c.blk>> \in approved \/ \E j \in DOMAIN e.vals : e.vals[j].ok /\ e.vals[j].blk = c.blk, "c04_unvalidated_block_committed")
        /\ Chk(\A j \in DOMAIN H.commits : H.commits[j] < c.h, "c13_commit_heights_not_increasing")
 
